@@ -343,11 +343,24 @@ def solve_text(text, nparts, timeout_s, expect_sat=False, use_cvc5=True, both=Fa
         stages = [(int(min(timeout_s, 2) * 1000), False, "z3", text),
                   (int(min(timeout_s, 6) * 1000), False, "z3-relevant-hyps", reduced_text),
                   (int(timeout_s * 1000), True, "z3-mbqi", text),
-                  (int(timeout_s * 1000), False, "z3", text)]
+                  # the last resort gets three times the budget: an obligation that needs it is the kind whose verdict would
+                  # otherwise flip when all cores are busy
+                  (int(timeout_s * 3000), False, "z3", text)]
         s, r, name = None, z3.unknown, "z3"
-        for ms, mbqi, name, tx in stages:
+        for k, (ms, mbqi, name, tx) in enumerate(stages):
             if tx is None:
                 continue
+            if k == 2 and assumption == "g!all" and nparts and nparts > 1:
+                # a conjunctive goal that resists the short stages: its conjuncts are usually easy one by one, and proving
+                # them separately is much more stable under load than one long run on the conjunction
+                ok = True
+                for i in range(nparts):
+                    si, ri = _check(text, "g!%d" % i, int(timeout_s * 1000), False)
+                    if ri != z3.unsat:
+                        ok = False
+                        break
+                if ok:
+                    return si, z3.unsat, "z3 (per conjunct)"
             s, r = _check(tx, assumption, ms, mbqi)
             if tx is reduced_text and r != z3.unsat:
                 r = z3.unknown          # a model of fewer hypotheses refutes nothing
